@@ -86,7 +86,8 @@ class Report:
                              f'[key={key}, {self.counts[key]} case(s) this run]')
                 continue
             new += 1
-            safe = re.sub(r'[^A-Za-z0-9_.-]+', '_', key)[:80]
+            import hashlib
+            safe = re.sub(r'[^A-Za-z0-9_.-]+', '_', key)[:80] + '-' + hashlib.md5(key.encode()).hexdigest()[:6]
             for n, v in enumerate(vs[:1]):
                 path = os.path.join(REPLAY_DIR, self.prop, f'{safe}-{n}.json')
                 with open(path, 'w') as f:
